@@ -1,0 +1,95 @@
+//go:build verif
+
+// Contracts for the cleaner use case (deleting the contents and records of versions nobody can read
+// any more; choosing the horizon of the old-version collector), read by /verif/govc.
+package cleaner
+
+//@ pure func depsOk(u *UseCase) bool = u != nil && u.core != nil && u.cRepo != nil && u.cfRepo != nil && u.db != nil &&
+//@                                      u.dRepo != nil && u.fRepo != nil && u.sender != nil && u.txRepo != nil
+
+// ---- interfaces ----
+
+// Oldest: the registered transaction with the smallest begin sequence, ErrTxNotFound when none is registered.
+//@ iface transactionRepository.Oldest
+//@   params ctx
+//@   ensures some:  result1 == nil ==> world.reg[result0.Id] && result0.Seq == world.begin[result0.Id] &&
+//@                     forall id string :: world.reg[id] ==> result0.Seq <= world.begin[id]
+//@   ensures none:  is(result1, fs_db.ErrTxNotFound) ==> result1 != nil && forall id string :: !world.reg[id]
+
+// The collector may only be given a horizon that no open transaction began before, and only the main
+// transaction is collected: snapshot readers look up the main transaction as of their begin sequence.
+//@ iface core.DeleteOld
+//@   params ctx, txId, beforeSeq
+//@   requires main:    txId == model.MainTxId
+//@   requires horizon: forall id string :: world.reg[id] ==> beforeSeq <= world.begin[id]
+
+//@ iface contentFileRepository.Get
+//@   params ctx, id
+//@   ensures found:   result1 == nil ==> world.hasCRec[id] && result0.Id == id && result0.Parent == world.cParent[id]
+//@   ensures missing: is(result1, fs_db.ErrNotFound) ==> result1 != nil && !world.hasCRec[id]
+//@ iface contentFileRepository.Delete
+//@   params ctx, id
+//@   modifies world.hasCRec
+//@   ensures gone:    result == nil ==> !world.hasCRec[id]
+//@   ensures mono:    world.hasCRec[id] ==> old(world.hasCRec[id])
+//@   ensures others:  forall c string :: c != id ==> world.hasCRec[c] == old(world.hasCRec[c])
+//@ iface contentRepository.Delete
+//@   params ctx, path
+//@   modifies world.hasBlob
+//@   ensures gone:    (result == nil || is(result, fs_db.ErrNotFound)) ==> !world.hasBlob[path]
+//@   ensures mono:    world.hasBlob[path] ==> old(world.hasBlob[path])
+//@   ensures others:  forall p string :: p != path ==> world.hasBlob[p] == old(world.hasBlob[p])
+//@ iface fileRepository.Delete
+//@   params ctx, file
+//@   modifies world.hasRec
+//@   ensures gone:    result == nil ==> !world.hasRec[file.ContentId]
+//@   ensures mono:    world.hasRec[file.ContentId] ==> old(world.hasRec[file.ContentId])
+//@   ensures others:  forall c string :: c != file.ContentId ==> world.hasRec[c] == old(world.hasRec[c])
+//@ iface dirRepository.Add
+//@   params ctx, dir
+//@ iface dbProvider.GC
+//@ iface sender.Send
+//@   params ctx, event
+
+// ---- deleteFile: content, then content record, then version record; only this version's ----
+//@ func (*UseCase).deleteFile
+//@   requires deps:    depsOk(u)
+//@   modifies world.hasBlob, world.hasCRec, world.hasRec
+//@   ensures  gone:    result == nil && old(world.hasCRec[file.ContentId]) ==>
+//@                        !world.hasCRec[file.ContentId] && !world.hasRec[file.ContentId] && !world.hasBlob[pathJoin(world.cParent[file.ContentId], file.ContentId)]
+//@   ensures  norec:   result == nil ==> !world.hasCRec[file.ContentId]
+//@   ensures  crecs:   forall c string :: c != file.ContentId ==> world.hasCRec[c] == old(world.hasCRec[c])
+//@   ensures  recs:    forall c string :: c != file.ContentId ==> world.hasRec[c] == old(world.hasRec[c])
+//@   ensures  blobs:   forall p string :: p != pathJoin(world.cParent[file.ContentId], file.ContentId) ==> world.hasBlob[p] == old(world.hasBlob[p])
+// the version record goes last: while it exists the content record or the content may already be gone
+// (a deleted version), never the other way round
+//@   ensures  mono:    forall c string :: (world.hasCRec[c] ==> old(world.hasCRec[c])) && (world.hasRec[c] ==> old(world.hasRec[c]))
+//@   ensures  order:   world.hasRec[file.ContentId] != old(world.hasRec[file.ContentId]) ==> !world.hasCRec[file.ContentId]
+
+// ---- DeleteFiles: only the listed versions' contents and records are touched ----
+//@ pure func listed(files []model.File, c string) bool = exists i int :: 0 <= i && i < len(files) && files[i].ContentId == c
+//@ func (*UseCase).DeleteFiles
+//@   requires deps:    depsOk(u)
+//@   modifies world.hasBlob, world.hasCRec, world.hasRec
+//@   ensures  crecs:   forall c string :: !listed(files, c) ==> world.hasCRec[c] == old(world.hasCRec[c])
+//@   ensures  recs:    forall c string :: !listed(files, c) ==> world.hasRec[c] == old(world.hasRec[c])
+//@   ensures  blobs:   forall p string :: (forall i int :: 0 <= i && i < len(files) ==> p != pathJoin(world.cParent[files[i].ContentId], files[i].ContentId)) ==>
+//@                        world.hasBlob[p] == old(world.hasBlob[p])
+//@   ensures  gone:    result == nil ==> forall i int :: 0 <= i && i < len(files) && old(world.hasCRec[files[i].ContentId]) ==>
+//@                        !world.hasCRec[files[i].ContentId] && !world.hasRec[files[i].ContentId]
+//@ loop (*UseCase).DeleteFiles#1
+//@   invariant idx:    -1 <= rangeindex && rangeindex + 1 <= len(files)
+//@   decreases len(files) - rangeindex
+//@   invariant crecs:  forall c string :: !listed(files, c) ==> world.hasCRec[c] == old(world.hasCRec[c])
+//@   invariant recs:   forall c string :: !listed(files, c) ==> world.hasRec[c] == old(world.hasRec[c])
+//@   invariant blobs:  forall p string :: (forall i int :: 0 <= i && i < len(files) ==> p != pathJoin(world.cParent[files[i].ContentId], files[i].ContentId)) ==>
+//@                        world.hasBlob[p] == old(world.hasBlob[p])
+//@   invariant mono:   forall c string :: (world.hasCRec[c] ==> old(world.hasCRec[c])) && (world.hasRec[c] ==> old(world.hasRec[c]))
+//@   invariant done:   err == nil ==> forall i int :: 0 <= i && i <= rangeindex ==> !world.hasCRec[files[i].ContentId]
+//@   invariant pair:   err == nil ==> forall c string :: old(world.hasCRec[c]) && !world.hasCRec[c] ==> !world.hasRec[c]
+
+// ---- DeleteOld: the horizon is the begin sequence of the oldest open transaction, or a fresh sequence
+// number when none is open ----
+//@ func (*UseCase).DeleteOld
+//@   requires deps:    depsOk(u)
+//@   modifies world.hasBlob, world.hasCRec, world.hasRec, cell[uint64]
